@@ -1,4 +1,5 @@
 """C12 - Resources are conserved: never negative, never leaked, claims never wait."""
+import collections
 import itertools
 from usim import ResourcesUnavailable
 from ..run import run_one
@@ -9,10 +10,11 @@ PROPERTY = 'C12'
 LEVEL = 'fault_enumeration'
 RULE = ('every program of 1-3 users (borrow/claim, amounts 1-2 of 1-2 named resources, hold none/instant/+1, nested '
         'borrow from the borrowed share, arrival 0/+1) and an optional helper (increase/decrease/set) on Capacities and '
-        'Resources supplies, plus users that are children (one volatile) of a user\'s own scope; fault-free and with one deviation: cancel at every activation boundary of every user, '
+        'Resources supplies, plus one borrow/claim context object entered twice (concurrently, again after it was left), plus users that are children (one volatile) of a user\'s own scope; fault-free and with one deviation: cancel at every activation boundary of every user, '
         'until-interrupt / forceful close of one user and forceful close of all users at once swept over every position '
         'of every FIFO round. Oracle: at EVERY activation boundary supply - in_flight <= available <= supply - held and '
-        'available >= 0, claims never wait and fail exactly when unavailable, available == supply at the end; '
+        'available >= 0, claims never wait and fail exactly when unavailable, available == supply at the end, every borrowed share has levels '
+        'within [0, borrowed amount] at every boundary and holds nothing once its block is left; '
         'non-trivial = a user had to wait, a claim was refused, or a fault hit a user while acquiring/holding/releasing')
 ASSUMPTIONS = [
     'supplies Capacities(a=2), Resources(a=2), Resources(a=2,b=1); amounts <= 2; <= 3 users, one helper',
@@ -90,6 +92,20 @@ def cases(tier):
                         inner = [['DO', 'g1', reg], ['DO', 'g2', vol, {'volatile': True}]] + tail
                         owner = [['SCOPE', 'in', inner], ['PROBE', 'levels', 'r']]
                         p = program(supply, [owner] + ([other] if other else []), None)
+                        out.append(p)
+    # one borrow / claim context OBJECT that is entered by two activities at once, or again after it was left
+    for supply in ('cap2', 'res2'):
+        for how in ('Borrow', 'Claim'):
+            for amount in (1, 2):
+                slot = {'slot': [how, 'r', {'a': amount}]}
+                wrap = (lambda ops: [['TRY', ops]]) if how == 'Claim' else (lambda ops: ops)
+                for u1 in (wrap([['ENTER', 'slot', [['D', 1]]]]), wrap([['ENTER', 'slot', [['D', 1]]]]) + wrap([['ENTER', 'slot', [['D', 1]]]]),
+                           wrap([['ENTER', 'slot', [['BORROW', '@', {'a': 1}, [['INSTANT']]], ['D', 1]]]])):
+                    for u2 in (wrap([['ENTER', 'slot', [['D', 2]]]]), [['D', 1]] + wrap([['ENTER', 'slot', [['D', 1]]]]),
+                               [['D', 2]] + wrap([['ENTER', 'slot', [['BORROW', '@', {'a': 1}, [['D', 1]]]]]]),
+                               user(0, 'BORROW', {'a': 1}, 1, False)):
+                        p = program(supply, [u1, u2], None)
+                        p['objs'].update(slot)
                         out.append(p)
     return out
 
@@ -255,14 +271,54 @@ def claims_ok(ctx, snaps, program):
     return msgs, waited, refused
 
 
+def share_levels(ctx, where, msgs):
+    """the levels of every borrowed share: never negative, never above what the block borrowed"""
+    for key, cm, amounts in getattr(ctx, 'shares', ()):
+        lv = dict(cm.levels)
+        for n, v in lv.items():
+            if v < 0 and len(msgs) < 3:
+                msgs.append('%s: the share borrowed at %r has level %s = %r' % (where, key, n, v))
+            # (a named context object that several blocks have entered holds one amount per entry: no upper bound here)
+            if key[1] != () and v > amounts.get(n, 0) and len(msgs) < 3:
+                msgs.append('%s: the share borrowed at %r holds %s = %r, more than the %r it borrowed' % (where, key, n, v, amounts.get(n, 0)))
+
+
 def check_exec(program, faults=()):
     snaps = []
+    share_msgs = []
+
+    share_snaps = []
 
     def observe(ctx, loop, k):
         snaps.append((k, len(ctx.log), dict(ctx.objs['r'].levels), loop.time))
+        tmp = []
+        share_levels(ctx, 'end of time step %r' % (loop.time,), tmp)
+        share_snaps.append((loop.time, tmp))
     ctx = run_one(program, faults, observe=observe)
     snaps.append((len(ctx.trace) + 1, len(ctx.log), dict(ctx.objs['r'].levels), 'quiescence'))
     msgs, _, _ = conservation(ctx, snaps, program)
+    # (a block that is left abnormally hands back through separately scheduled activities: within that time step the share
+    # may be out of bounds; what is judged is the state at the end of every time step)
+    transient = []
+    for i, (t, tmp) in enumerate(share_snaps):
+        if tmp and (i + 1 == len(share_snaps) or share_snaps[i + 1][0] != t):
+            share_msgs += tmp
+            break
+        if tmp and not transient:
+            transient = ['within time step %r (back in bounds at its end): %s' % (t, m.split(': ', 1)[1]) for m in tmp if 'has level' in m][:1]
+    msgs += share_msgs
+    # at quiescence a share whose block has been left holds nothing any more
+    entered = collections.Counter()
+    for kind, act, pc, now, data in ctx.log:
+        if kind == 'res-held':
+            entered[(act, pc)] += 1
+        elif kind == 'res-gone' and entered[(act, pc)]:
+            entered[(act, pc)] -= 1
+    if not any(entered.values()):
+        for key, cm, amounts in getattr(ctx, 'shares', ()):
+            if any(v != 0 for v in dict(cm.levels).values()):
+                msgs.append('at the end the share borrowed at %r still holds %r although its block was left' % (key, dict(cm.levels)))
+                break
     m2, waited, refused = claims_ok(ctx, snaps, program)
     msgs += m2
     msgs += kernel_health(ctx, ignore=lambda act, pc, x: isinstance(x, AssertionError) and 'decrease below zero' in str(x))
@@ -282,7 +338,19 @@ def check_exec(program, faults=()):
         stuck = [(a, am) for (a, pc), am in acquiring.items() if all(final[n] >= v for n, v in am.items())]
         if stuck or not acquiring:
             msgs.append('run ended with the root unfinished; waiting although available: %r (levels %r)' % (stuck, final))
+    if not msgs and transient:
+        msgs = transient          # (reported only when nothing else is wrong: known finding C12/share-transient-negative)
     return ctx, msgs, (waited or refused)
+
+
+def share_transient_negative(case, faults, msgs):
+    """known finding: the share of a block that is left by an interrupt / close while a nested borrow from it is still being
+    handed back (deferred hand-back) shows a negative level for a part of that time step"""
+    return bool(msgs) and all(m.startswith('within time step') and 'has level' in m for m in msgs) and 'BORROW\', \'@\'' in repr(
+        faults.get('program', case) if isinstance(faults, dict) else case)
+
+
+MATCHERS = {'share_transient_negative': share_transient_negative}
 
 
 def fault_hit(ctx, victim):
